@@ -152,6 +152,17 @@ def scen_real_pass(rng, which):
             'external': ext}
 
 
+def scen_real_pass_latin1(rng, which):
+    """the same real passes on a test case that is not valid UTF-8 (a Latin-1 byte in a comment, no --to-utf8): whatever the
+    pass makes of it — most raise — every invocation of the test still sees exactly the test cases"""
+    s = scen_real_pass(rng, which)
+    s['name'] = s['name'] + ':latin1'
+    s['tree']['a.c'] = {'text': s['tree']['a.c']['text'].replace('// c\n', '// caf\xe9\n'), 'latin1': True}
+    s['expect_any'] = True
+    s['consts'] = {'GIVEUP_CONSTANT': 30}       # comments / includes never answer STOP on such a file (F17): let them give up soon
+    return s
+
+
 def scen_helper_hangs(rng):
     """a helper program that is still running when its candidate is cancelled: the symbol listing (`unifdef -s`) of the
     first candidate hangs, the second candidate is interesting and wins, the first one is cancelled — its helper must
